@@ -49,6 +49,13 @@ SPAN_TXT = {1000: "1s", 2000: "2s", 1500: "1500ms", 700: "700ms", 500: "500ms", 
 # relative align times the grammar accepts (resolved against the wall clock at parse time, i.e. long after the data):
 # only the partition property can be demanded for them, the align time itself is not known to the check
 REL_ALIGN = ["now", "-1h", "@d", "-1d@h+300s"]
+SCALE = 1000                   # the spec's numbers are thousandths
+# other spellings of the same number (all accepted by strconv.ParseFloat: long fractions, exponents, a leading +)
+SPELLINGS = {"1.14": ["1.14", "1.1400000000000000000", "114e-2", "+1.14"], "1.36": ["1.36", "1.360000000000000000", "136e-2", "+1.36"],
+             "0.1": ["0.1", "0.1000000000000000000", "1e-1"], "2.675": ["2.675", "2.67500000000000000000", "2675e-3"],
+             "2": ["2", "2.0", "2e0", "+2"]}
+# text that only looks like a number: members of the family the spec's label stands for
+LOOKALIKES = {"-": ["-", "+", ".", "-."], "e5": ["e5", "1e", "0x10"]}
 
 
 # ----------------------------------------------------------------------------- concretisation
@@ -58,9 +65,9 @@ def conc_x(v):
     if k == "absent":
         return None
     if k == "int":
-        return v["n"] // 4
+        return v["n"] // SCALE
     if k == "flt":
-        return v["n"] / 4.0
+        return v["n"] / float(SCALE)
     return v["c"]           # numstr: its spelling; text: the label
 
 
@@ -95,8 +102,8 @@ def canon(v):
     if isinstance(v, bool):
         return "true" if v else "false"
     if isinstance(v, (int, float)):
-        f = Fraction(v).limit_denominator(10 ** 9)
-        return str(f.numerator) if f.denominator == 1 else repr(float(f))
+        # exact: 1.3599999999999999 and 1.36 are different values
+        return str(int(v)) if float(v).is_integer() else repr(float(v))
     s = str(v)
     try:
         f = Fraction(s)
@@ -179,6 +186,17 @@ def part_lacks(ds, cuts, field):
 def feature(events_of_group, fn, ds=None, cuts=None, fields=("x",)):
     """dataset class of the events an aggregate ranges over (part of the violation key)"""
     ks = [e["x"]["k"] for e in events_of_group]
+    looks = [fam for fam, members in LOOKALIKES.items() for e in events_of_group if e["x"]["k"] == "text" and e["x"]["c"] in members]
+    if looks:
+        # known root cause D takes precedence where it applies: a block/segment whose values are all text next to one that
+        # holds numbers (their statistics are merged as "not numeric" in either order)
+        isnum = lambda e: e["x"]["k"] in ("int", "flt", "numstr")
+        if ds is not None and any(isnum(e) for e in ds) and any(
+                part and not any(isnum(e) for e in part) and any(e["x"]["k"] == "text" for e in part) for part in parts_of(ds, cuts)):
+            return "text-mixed"
+        return "number-lookalike"          # text such as "-" or "e5" next to numeric strings
+    if any(e["x"]["k"] == "numstr" and e["x"]["n"] % SCALE != 0 for e in events_of_group):
+        return "decimal-string"            # numeric strings that are not binary fractions / integers
     if ds is not None and any(part_lacks(ds, cuts, f) for f in fields):
         return "part-lacks-field"
     if fn in ("earliest", "latest") and events_of_group:
@@ -229,12 +247,20 @@ def cmp_final1(f, mv, evs, asked_for=None):
     if asked("count(x)"):
         numeq("count-field", mv.get("count(x)"), Fraction(f["countx"]))
     if f["hasnum"]:
-        for fn, name, want in (("sum(x)", "sum", Fraction(f["sum"], 4)), ("min(x)", "min", Fraction(f["min"], 4)),
-                               ("max(x)", "max", Fraction(f["max"], 4)), ("avg(x)", "avg", Fraction(f["avgnum"], 4 * f["avgden"]))):
+        for fn, name, want in (("sum(x)", "sum", Fraction(f["sum"], SCALE)), ("avg(x)", "avg", Fraction(f["avgnum"], SCALE * f["avgden"]))):
             if asked(fn):
                 numeq(name, mv.get(fn), want)
+        # min / max are values of events: the double nearest to the written number, bit for bit
+        for fn, name, want in (("min(x)", "min", Fraction(f["min"], SCALE)), ("max(x)", "max", Fraction(f["max"], SCALE))):
+            if asked(fn):
+                got = mv.get(fn)
+                if isinstance(got, bool) or not isinstance(got, (int, float)) or float(got) != float(want):
+                    bad.append((name, "got %r, want %r" % (got, float(want) if want.denominator != 1 else want.numerator)))
         if "range(x)" in mv:
-            numeq("range", mv.get("range(x)"), Fraction(f["range"], 4))
+            numeq("range", mv.get("range(x)"), Fraction(f["range"], SCALE))
+    if not f["hasnum"] and asked("sum(x)") and mv.get("sum(x)") not in (None, 0):
+        # no number among the values (under this reading of numeric strings): nothing may have been summed
+        bad.append(("sum", "got %r although no value is a number" % (mv.get("sum(x)"),)))
     # distinct count: by spelling or by numeric value (the statement does not say whether 2 and "2" are distinct)
     dc = mv.get("cardinality(x)")
     if asked("dc(x)") and (dc is None or int(dc) not in (f["dc"], f["dcnum"])):
@@ -285,7 +311,12 @@ def check_case(case, results):
                     continue
                 asked_for = [x.strip() for x in q["stats"].split(",")]
                 for m, detail in cmp_final(beh["global"], rows[0][2], ds, beh.get("global_ns"), asked_for):
-                    out.append(("C04:%s:global:%s" % (feature(ds, m, ds, cuts), m), "[%s] `%s`: %s: %s" % (path, q["text"], m, detail)))
+                    feat = feature(ds, m, ds, cuts)
+                    if feat in ("number-lookalike", "decimal-string"):
+                        # which code classified the strings: the statistics written at ingest (a `*` query that needs nothing but
+                        # count/sum/min/max of the column is answered from them) or stats.AddSegStatsStr at query time
+                        feat += "@ingest-stats" if path.endswith("/star") and q["name"] in ("simple", "avgonly") else "@query-time"
+                    out.append(("C04:%s:global:%s" % (feat, m), "[%s] `%s`: %s: %s" % (path, q["text"], m, detail)))
             elif kind == "groupby":
                 exp = {gkey_spec(rw["key"]): rw for rw in beh["rows"]}
                 seen = {}
@@ -337,7 +368,7 @@ def check_case(case, results):
                                     "%d events have their timestamp in it (event times %s)" % (
                                         path, q["text"], q["start"] - T0, q["end"] - T0, k - T0, span, cnt, len(want), [t - T0 for t in tss])))
                     elif "sum(x)" in mv and want and Fraction(mv["sum(x)"] or 0) != sum(
-                            Fraction(e["x"]["n"], 4) for e in ds if k <= T0 + e["ts"] < k + span and e["x"]["k"] in ("int", "flt", "numstr")):
+                            Fraction(e["x"]["n"], SCALE) for e in ds if k <= T0 + e["ts"] < k + span and e["x"]["k"] in ("int", "flt", "numstr")):
                         out.append(("C04:%s:%s:bucket-sum" % (tag, kind), "[%s] `%s`: bucket %d sum %s" % (path, q["text"], k - T0, mv.get("sum(x)"))))
                     if cnt:
                         keys.append(k)
@@ -391,6 +422,8 @@ def norm_mv(mv):
             o[k] = sorted(tokens(v))
         elif k.startswith(("earliest", "latest", "min", "max")):
             o[k] = canon(v)
+        elif isinstance(v, float):
+            o[k] = float("%.9g" % v)      # sums / averages: equal up to rounding error (order of summation)
         else:
             o[k] = v
     return json.dumps(o, sort_keys=True)
@@ -431,6 +464,24 @@ def logical_queries(case):
     return out
 
 
+def respell(beh, rnd):
+    """numstr mode: replace the spec's spelling of a numeric string by another spelling of the SAME number, and its look-alike
+    label by another member of the family, consistently in the dataset and in the expected tables"""
+    pick = {}
+    for sp, alts in list(SPELLINGS.items()) + list(LOOKALIKES.items()):
+        pick[sp] = rnd.choice(alts)
+
+    def walk(o):
+        if isinstance(o, dict):
+            if set(o) == {"k", "n", "c"} and o["k"] in ("numstr", "text") and o["c"] in pick:
+                return dict(o, c=pick[o["c"]])
+            return {k: walk(v) for k, v in o.items()}
+        if isinstance(o, list):
+            return [walk(x) for x in o]
+        return o
+    return walk(beh)
+
+
 def build_case(idx, mode, beh):
     evs = conc_events(beh["ds"])
     maxts = max(e["ts"] for e in beh["ds"])
@@ -441,7 +492,8 @@ def build_case(idx, mode, beh):
         qs.append(dict(name="global/" + pname, kind="global", stats=STATS, text="%s | stats %s" % (pre, STATS), start=wide[0], end=wide[1]))
         qs.append(dict(name="simple/" + pname, kind="global", stats=SSTATS, text="%s | stats %s" % (pre, SSTATS), start=wide[0], end=wide[1]))
         qs.append(dict(name="avgonly/" + pname, kind="global", stats="avg(x)", text="%s | stats avg(x)" % pre, start=wide[0], end=wide[1]))
-        qs.append(dict(name="groupby/" + pname, kind="groupby", stats=GSTATS, text="%s | stats %s by g" % (pre, GSTATS), start=wide[0], end=wide[1]))
+        if mode != "numstr":     # string-typed measure: group-by is left out (its known count(x)/avg finding C would only repeat here)
+            qs.append(dict(name="groupby/" + pname, kind="groupby", stats=GSTATS, text="%s | stats %s by g" % (pre, GSTATS), start=wide[0], end=wide[1]))
     if mode == "bucket":
         for span in (1000, 1500, 2000, 700):
             # (a) range start not aligned, nothing at the end; (b) start aligned, span divides the range; (c) an event exactly at the range end
@@ -485,7 +537,8 @@ def run(chk):
     # ---- model + behaviours (all TLC runs side by side, 2 workers each)
     mc = [("agg", "measure domain: all datasets x all segmentations"), ("group", "group-key domain (absent/empty/numeric/bool/string keys)"),
           ("bucket", "timestamps on/around span boundaries, spans dividing and not dividing")]
-    jobs = [("mc", c) for c in mc] + [("gen", x) for x in ("agg", "group", "bucket")] + [("defect", x) for x in ("min", "avg", "latest", "key", "align")]
+    mc.append(("numstr", "string-typed measure: decimal strings, integer string, number look-alikes, absent"))
+    jobs = [("mc", c) for c in mc] + [("gen", x) for x in ("agg", "group", "bucket", "numstr")] + [("defect", x) for x in ("min", "avg", "latest", "key", "align")]
 
     def tlc(job):
         kind, a = job
@@ -514,11 +567,11 @@ def run(chk):
     chk.cov["model_sensitivity"] = sens
 
     # sample DATASETS; each is replayed with the one-part segmentation and with other segmentations of the same dataset
-    n = {"agg": 42, "group": 30, "bucket": 16} if quick else {"agg": 512, "group": 500, "bucket": 343}
+    n = {"agg": 42, "group": 30, "bucket": 16, "numstr": 36} if quick else {"agg": 512, "group": 500, "bucket": 343, "numstr": 400}
     per_ds = 2 if quick else 4
     cases = []
     rnd = random.Random(chk.seed)
-    for mode in ("agg", "group", "bucket"):
+    for mode in ("agg", "group", "bucket", "numstr"):
         byds = {}
         for b in gens[mode]:
             byds.setdefault(json.dumps(b["ds"], sort_keys=True), []).append(b)
@@ -528,6 +581,8 @@ def run(chk):
             multi = [b for b in bs if len(b["cuts"]) > 1]
             pick = one[:1] + rnd.sample(multi, min(per_ds - 1, len(multi)))
             for b in pick:
+                if mode == "numstr":
+                    b = respell(b, random.Random("%d/%s" % (chk.seed, dk)))    # the same spellings for every segmentation of a dataset
                 c = build_case(len(cases), mode, b)
                 c["dskey"] = dk
                 cases.append(c)
